@@ -1,2 +1,6 @@
 import HpoProofs.Group
 import HpoProofs.TermId
+import HpoProofs.NumReal
+import HpoProofs.Similarity
+import HpoProofs.Matrix
+import HpoProofs.Combine
